@@ -359,7 +359,19 @@ func cmdCheck(args []string) int {
 		}
 		ow := rep.owner[o]
 		var rr *ReplayResult
-		if ow.x != nil && ow.x.fn != nil && badq != nil && replayBudget > 0 && status == "FAILED" {
+		scenario := ""
+		if theCatalogue != nil {
+			for pre, f := range theCatalogue.Scenarios {
+				if strings.HasPrefix(o.Name, pre) {
+					scenario = f
+				}
+			}
+		}
+		if scenario != "" && status == "FAILED" && replayBudget > 0 {
+			replayBudget--
+			d, _ := os.MkdirTemp(work, "scn")
+			rr = scenarioReplay(*verif, scenario, d, *repo)
+		} else if ow.x != nil && ow.x.fn != nil && badq != nil && replayBudget > 0 && status == "FAILED" {
 			replayBudget--
 			rr = replayObligation(ld, specs, ow.x, o, badq, work, *repo, timeoutS)
 		} else {
